@@ -189,7 +189,7 @@ def rule_reduction(ctx: Ctx) -> None:
     raw = [fr for ok_, fr in verdicts if ok_ is False]
     und = [fr for ok_, fr in verdicts if ok_ is None]
     ctx.tri("4-reduction", v, v.node, bool(rj) and all(ok_ is True for ok_, _fr in verdicts), bool(raw), f"incompatible types are rejected unless a documented exemption applies ({len(skipping)} documented skips recognised)",
-            f"edges are additionally exempted from the type check depending on `{raw[0][0] if raw else ''}`: incompatible annotations are accepted although no documented exemption applies",
+            f"edges are additionally exempted from the type check depending on `{(raw[0] or ['?'])[0] if raw else ''}`: incompatible annotations are accepted although no documented exemption applies",
             f"skip condition(s) {[u[:2] for u in und][:1]} are computed by helpers this rule does not look into", key="no-extra-skip")
     air = P.func(f"{VAL}._axis_is_reduced")
     body = [s_ for s_ in air.node.body if not (isinstance(s_, ast.Expr) and isinstance(s_.value, ast.Constant))]
